@@ -142,6 +142,37 @@ def pctdiff_sqlite_integer_witness(ctx: Ctx):
     ctx.expect_known("KF-C16-pctdiff-sqlite-integer-division", reproduced, "SQLite no longer truncates the percentage difference of INTEGER columns")
 
 
+def replay_one(ctx: Ctx, insts):
+    """re-run just the level / row of a replay file on the real engine against the documented predicate"""
+    import json
+
+    from harness import c16_x
+    rp = json.load(open(ctx.replay))
+    case = rp.get("case") or {}
+    if "level" not in case or "row" not in case or "dialect" not in case:
+        return False
+    inst = next((i for i in T.level_grid("thorough") if i.key == case["level"]), None)
+    if inst is None:
+        return False
+    d = case["dialect"]
+    row = {c: tuple(v) for c, v in case["row"].items()}
+    tname = case.get("table") or c16_x.tables_for(inst, d)[0]
+    tabs = c16_x.tables(ctx)
+    types = dict(tabs[tname][0]) if tname in tabs else {c: "VARCHAR" for c in row}
+    if case.get("column_type") == "INTEGER":
+        types = {c: "BIGINT" for c in row}
+    eng = c16_x.Engine(d)
+    eng.make_table("replay", (types, [row]))
+    sql = T.current_sql(inst, d)
+    got = c16_x.tvl(eng.eval("replay", [sql])[0][0])
+    doc = c16_x.doc_level(inst, row, d)
+    ctx.count_case(("replay", case["level"], d), True, {"replay": case, "engine": got, "documented": doc})
+    ctx.log(f"replay {case['level']} on {d}: engine {got!r}, documented {doc!r}")
+    if doc != "undef" and got != doc:
+        c16_x.report_level(ctx, inst, d, "int" if case.get("column_type") == "INTEGER" else tname, row, sql, got, doc, "replay")
+    return True
+
+
 def run(ctx: Ctx):
     ctx.cov["rule"] = ("T: one `same_expr` obligation per (level creator x constructor-argument grid x dialect) and one "
                        "`levels_ok && same_expr case (gen_case ls)` obligation per (comparison creator x threshold lists x dialect). "
@@ -164,6 +195,9 @@ def run(ctx: Ctx):
     ctx.cov["translated_sources"] = {p: git_blob(REPO / p) for p in SOURCES}
     insts = T.level_grid(ctx.tier)
     comps = T.comparison_grid(ctx.tier)
+    if ctx.replay:
+        if replay_one(ctx, insts):
+            return
     for i in insts:
         ctx.hist("level_grid_family", i.family)
     failing_levels, err1 = level_obligations(ctx, insts)
